@@ -28,6 +28,8 @@ PATHS = ["s", "n", "z", "e", "lst", "elst", "m/k", "m/lst", "none", "missing", "
          "missing | default", "not:lst", "not:elst", "not:missing", "not:default", "exists:missing", "exists:s", "exists:missing | m/k",
          "string:lit ${s} $$ ${missing} $n end", "string:$title!", "string:trailing $", "nocall:n", "attrs/class | string:noattr", "nested",
          "people/0/name", "people/1/age", "x/name", "path:title", "python: 'PYTHON-ORACLE'", "title", "lst/1", "lst/9", "m/missing | z",
+         # a numeric step on a value that cannot be subscripted is a path that is not found, like any other
+         "n/0 | string:alt", "none/2 | default", "not:exists:n/10", "string:[${n/3}]", "n/1", "nothing/0 | s", "exists:n/0",
          # values that differ from one repeat pass to the next (a value, then nothing / default / missing)
          "x/name | default", "x/name | nothing", "y/name", "x/name | string:(unnamed)",
          # full TALES expressions inside ${...}: alternation and prefixes; $name is a plain path
@@ -44,6 +46,8 @@ DEFINES = ["v s", "v n; w string:W", "global g s", "v lst", "v missing | string:
 
 # templates that once separated a seeded defect from the real thing: they always run first
 FIXED = [
+    [("elem", "p", [], {"content": "n/0 | string:alt"}, [("text", "d")]), ("elem", "p", [], {"condition": "not:exists:n/10", "content": "string:[${n/3}]"}, []),
+     ("elem", "i", [], {"replace": "none/2 | default"}, [("text", "kept")])],
     # an inner loop re-using the outer loop's variable name: afterwards `repeat/x` and `x` are the outer loop's again
     [("elem", "ul", [], {}, [("elem", "li", [], {"repeat": "x people"},
                               [("elem", "b", [], {"repeat": "x lst", "content": "x"}, []), ("elem", "i", [], {"content": "repeat/x/number"}, []),
